@@ -40,7 +40,7 @@ LEVEL_NOTE = ("Scope of 'proof': the theorems are about the hand-written Rat mod
               "invariant through the lazily repaired heaps) - that is observed per case by correspondence + the "
               "proven checker (the model has no dynamic check: that every heap hands back a constraint joining "
               "its block to another one is a theorem, static_merge_applicable); a throw of UnsatisfiedConstraint by the "
-              "static solver on a certified-feasible inequality system is a SPECFAIL (flagged-iff-infeasible); the model is tied on unscaled inequality systems only; the static solver's two genuine "
+              "static solver on a certified-feasible inequality system is a SPECFAIL (flagged-iff-infeasible); the model is tied on unscaled systems for solve() and also on scaled ones for satisfy() (refine's split has the known scale defect), equality systems of the findings stream included; the static solver's two genuine "
               "defects (equalities ignored - reproduced by the model, witness in Props/C01Static; scaled split) "
               "are known findings watched by the 'findings' stream.")
 TECHNIQUE = ("Lean 4 theorems (certified Bellman-Ford feasibility checker, post-condition checker, Rat model of "
